@@ -12,7 +12,10 @@ use std::collections::BTreeMap;
 use std::io::Write;
 
 fn arg(args: &[String], name: &str) -> Option<String> {
-	args.iter().position(|a| a == name).and_then(|i| args.get(i + 1)).cloned()
+	args.iter()
+		.position(|a| a == name)
+		.and_then(|i| args.get(i + 1))
+		.cloned()
 }
 
 fn flag(args: &[String], name: &str) -> bool {
@@ -35,8 +38,12 @@ pub fn main(mode: &str) -> i32 {
 		"replay" => replay(&args),
 		"genplan" => {
 			let fam = arg(&args, "--family").unwrap_or_default();
-			let seed: u64 = arg(&args, "--seed").and_then(|s| s.parse().ok()).unwrap_or(1);
-			let idx: u64 = arg(&args, "--index").and_then(|s| s.parse().ok()).unwrap_or(0);
+			let seed: u64 = arg(&args, "--seed")
+				.and_then(|s| s.parse().ok())
+				.unwrap_or(1);
+			let idx: u64 = arg(&args, "--index")
+				.and_then(|s| s.parse().ok())
+				.unwrap_or(0);
 			match gen::generate(&fam, seed, idx) {
 				Some(p) => {
 					println!("{}", serde_json::to_string_pretty(&p).unwrap());
@@ -58,7 +65,12 @@ pub fn main(mode: &str) -> i32 {
 
 fn selftest() -> i32 {
 	let mut bad = 0;
-	for (name, r) in [("jws/jwk vectors", super::ca::keys::selftest()), ("idna/ip vectors", super::expect::selftest())].iter() {
+	for (name, r) in [
+		("jws/jwk vectors", super::ca::keys::selftest()),
+		("idna/ip vectors", super::expect::selftest()),
+	]
+	.iter()
+	{
 		match r {
 			Ok(()) => println!("selftest {}: ok", name),
 			Err(e) => {
@@ -83,17 +95,54 @@ pub fn trace_hashes(w: &World) -> (String, String) {
 		let (res, detail): (String, String) = match &e.ev {
 			Ev::Boot { n } => ("d".into(), format!("boot{}", n)),
 			Ev::BootOk { n, .. } => ("d".into(), format!("bootok{}", n)),
-			Ev::BootErr { n, msg } => ("d".into(), format!("booterr{}:{}", n, msg.replace(w.scratch.to_string_lossy().as_ref(), "@"))),
+			Ev::BootErr { n, msg } => (
+				"d".into(),
+				format!(
+					"booterr{}:{}",
+					n,
+					msg.replace(w.scratch.to_string_lossy().as_ref(), "@")
+				),
+			),
 			Ev::Stopped { why } => ("d".into(), format!("stopped:{}", why)),
 			Ev::AttemptBegin { cert, .. } => (cert.clone(), "begin".into()),
 			Ev::AttemptEnd { cert, ok, .. } => (cert.clone(), format!("end:{}", ok)),
-			Ev::NetSend { ca, method, url, .. } => (format!("ca{}", ca), format!("send:{}:{}", method, url)),
-			Ev::NetDeliver { ca, class, fault, .. } => (format!("ca{}", ca), format!("deliver:{}:{:?}", class, fault)),
-			Ev::NetReply { ca, status, err, .. } => (format!("ca{}", ca), format!("reply:{}:{}", status, err.is_some())),
-			Ev::HookSpawn { rec, .. } => ("hook".into(), format!("spawn:{}", rec.argv.first().cloned().unwrap_or_default())),
+			Ev::NetSend {
+				ca, method, url, ..
+			} => (format!("ca{}", ca), format!("send:{}:{}", method, url)),
+			Ev::NetDeliver {
+				ca, class, fault, ..
+			} => (
+				format!("ca{}", ca),
+				format!("deliver:{}:{:?}", class, fault),
+			),
+			Ev::NetReply {
+				ca, status, err, ..
+			} => (
+				format!("ca{}", ca),
+				format!("reply:{}:{}", status, err.is_some()),
+			),
+			Ev::HookSpawn { rec, .. } => (
+				"hook".into(),
+				format!("spawn:{}", rec.argv.first().cloned().unwrap_or_default()),
+			),
 			Ev::HookExit { code, .. } => ("hook".into(), format!("exit:{:?}", code)),
 			Ev::SpawnFail { prog } => ("hook".into(), format!("spawnfail:{}", prog)),
-			Ev::FsOpen { path, write, existed, err, .. } => ("fs".into(), format!("open:{}:{}:{}:{}", path.replace(w.scratch.to_string_lossy().as_ref(), "@"), write, existed, err.is_some())),
+			Ev::FsOpen {
+				path,
+				write,
+				existed,
+				err,
+				..
+			} => (
+				"fs".into(),
+				format!(
+					"open:{}:{}:{}:{}",
+					path.replace(w.scratch.to_string_lossy().as_ref(), "@"),
+					write,
+					existed,
+					err.is_some()
+				),
+			),
 			Ev::FsWrite { err, .. } => ("fs".into(), format!("write:{}", err.is_some())),
 			Ev::FsRead { err, .. } => ("fs".into(), format!("read:{}", err.is_some())),
 			Ev::FsClose { exact, .. } => ("fs".into(), format!("close:{}", exact)),
@@ -104,12 +153,19 @@ pub fn trace_hashes(w: &World) -> (String, String) {
 			Ev::Panic { msg } => ("d".into(), format!("panic:{}", msg)),
 		};
 		full.push_str(&format!("{}|{}|{}|{}\n", e.seq, e.t, res, detail));
-		ileave.push_str(&format!("{}|{}\n", res, detail.split(':').next().unwrap_or("")));
+		ileave.push_str(&format!(
+			"{}|{}\n",
+			res,
+			detail.split(':').next().unwrap_or("")
+		));
 	}
 	if let Ok(p) = std::env::var("ACMED_VERIF_DUMP_NORM") {
 		let _ = std::fs::write(p, &full);
 	}
-	(sha256_hex(full.as_bytes())[..16].to_string(), sha256_hex(ileave.as_bytes())[..16].to_string())
+	(
+		sha256_hex(full.as_bytes())[..16].to_string(),
+		sha256_hex(ileave.as_bytes())[..16].to_string(),
+	)
 }
 
 pub fn result_json(plan: &Plan, r: &RunResult, props: &[String]) -> (Value, Vec<Violation>) {
@@ -155,14 +211,27 @@ pub fn result_json(plan: &Plan, r: &RunResult, props: &[String]) -> (Value, Vec<
 
 fn batch(args: &[String]) -> i32 {
 	let fam = arg(args, "--family").unwrap_or_default();
-	let seed: u64 = arg(args, "--seed").and_then(|s| s.parse().ok()).unwrap_or(1);
-	let from: u64 = arg(args, "--from").and_then(|s| s.parse().ok()).unwrap_or(0);
+	let seed: u64 = arg(args, "--seed")
+		.and_then(|s| s.parse().ok())
+		.unwrap_or(1);
+	let from: u64 = arg(args, "--from")
+		.and_then(|s| s.parse().ok())
+		.unwrap_or(0);
 	let to: u64 = arg(args, "--to").and_then(|s| s.parse().ok()).unwrap_or(1);
-	let step: u64 = arg(args, "--step").and_then(|s| s.parse().ok()).unwrap_or(1).max(1);
-	let props: Vec<String> = arg(args, "--props").unwrap_or_default().split(',').filter(|s| !s.is_empty()).map(|s| s.to_string()).collect();
-	let samples: u64 = arg(args, "--samples").and_then(|s| s.parse().ok()).unwrap_or(0);
-	let out = std::io::stdout();
-	let mut out = out.lock();
+	let step: u64 = arg(args, "--step")
+		.and_then(|s| s.parse().ok())
+		.unwrap_or(1)
+		.max(1);
+	let props: Vec<String> = arg(args, "--props")
+		.unwrap_or_default()
+		.split(',')
+		.filter(|s| !s.is_empty())
+		.map(|s| s.to_string())
+		.collect();
+	let samples: u64 = arg(args, "--samples")
+		.and_then(|s| s.parse().ok())
+		.unwrap_or(0);
+	let mut out = std::io::stdout();
 	let mut i = from;
 	let mut harness_errors = 0;
 	while i < to {
@@ -174,19 +243,16 @@ fn batch(args: &[String]) -> i32 {
 				break;
 			}
 		};
-		let r = run::run_plan(&plan);
-		let (mut v, viols) = result_json(&plan, &r, &props);
-		if r.harness_error.is_some() {
+		let with_plan = samples > 0 && (i - from) / step < samples;
+		let iso = super::child::run_isolated(&plan, &props, with_plan, false);
+		if iso.harness_error {
 			harness_errors += 1;
 		}
-		if !viols.is_empty() || r.harness_error.is_some() || (samples > 0 && (i - from) / step < samples) {
-			v["plan"] = serde_json::to_value(&plan).unwrap();
-		}
-		run::cleanup(&r);
+		let v = iso.record;
 		let _ = writeln!(out, "{}", v);
+		let _ = out.flush();
 		i += step;
 	}
-	let _ = std::fs::remove_dir_all(run::scratch_base());
 	if harness_errors > 0 {
 		2
 	} else {
@@ -198,7 +264,11 @@ pub fn load_plan(path: &str) -> Result<Plan, String> {
 	let s = std::fs::read_to_string(path).map_err(|e| format!("{}: {}", path, e))?;
 	let v: Value = serde_json::from_str(&s).map_err(|e| format!("{}: {}", path, e))?;
 	// a replay file is either a bare plan or {"plan":..., "violation":...}
-	let pv = if v.get("plan").is_some() { v["plan"].clone() } else { v };
+	let pv = if v.get("plan").is_some() {
+		v["plan"].clone()
+	} else {
+		v
+	};
 	serde_json::from_value(pv).map_err(|e| format!("{}: {}", path, e))
 }
 
@@ -210,7 +280,12 @@ fn replay(args: &[String]) -> i32 {
 			return 2;
 		}
 	};
-	let props: Vec<String> = arg(args, "--props").unwrap_or_default().split(',').filter(|s| !s.is_empty()).map(|s| s.to_string()).collect();
+	let props: Vec<String> = arg(args, "--props")
+		.unwrap_or_default()
+		.split(',')
+		.filter(|s| !s.is_empty())
+		.map(|s| s.to_string())
+		.collect();
 	let plan = match load_plan(&path) {
 		Ok(p) => p,
 		Err(e) => {
@@ -218,27 +293,41 @@ fn replay(args: &[String]) -> i32 {
 			return 2;
 		}
 	};
-	let r = run::run_plan(&plan);
-	let (v, viols) = result_json(&plan, &r, &props);
-	if flag(args, "--trace") {
-		for e in r.world.trace.iter() {
-			eprintln!("{:>6} {:>14.6}s {:?}", e.seq, e.t as f64 / 1e9, e.ev);
-		}
-		for (i, ca) in r.world.cas.iter().enumerate() {
-			for p in ca.posts.iter() {
-				eprintln!("ca{} POST tx={} {} {} nonce={:?} {:?} problems={:?} -> {} {:?} scripted={:?}", i, p.tx, p.class, p.url, p.nonce, p.nonce_state, p.problems, p.reply_status, p.reply_type, p.scripted);
-			}
-		}
+	let iso = super::child::run_isolated(&plan, &props, false, flag(args, "--trace"));
+	let mut v = iso.record;
+	if let Some(o) = v.as_object_mut() {
+		o.remove("plan");
 	}
-	run::cleanup(&r);
-	let _ = std::fs::remove_dir_all(run::scratch_base());
 	println!("{}", v);
-	if r.harness_error.is_some() {
+	if iso.harness_error {
 		return 2;
 	}
-	if viols.is_empty() {
+	if v["violations"].as_array().map(|a| a.is_empty()).unwrap_or(true) {
 		0
 	} else {
 		1
+	}
+}
+
+pub fn print_trace(r: &RunResult) {
+	for e in r.world.trace.iter() {
+		eprintln!("{:>6} {:>14.6}s {:?}", e.seq, e.t as f64 / 1e9, e.ev);
+	}
+	for (i, ca) in r.world.cas.iter().enumerate() {
+		for p in ca.posts.iter() {
+			eprintln!(
+				"ca{} POST tx={} {} {} nonce={:?} {:?} problems={:?} -> {} {:?} scripted={:?}",
+				i,
+				p.tx,
+				p.class,
+				p.url,
+				p.nonce,
+				p.nonce_state,
+				p.problems,
+				p.reply_status,
+				p.reply_type,
+				p.scripted
+			);
+		}
 	}
 }
